@@ -20,10 +20,21 @@ entries as the shape.  `Sq.resolve arg cfg` is the squeeze value in force (keywo
                       (`process_time_natural`, `process_freq_natural`);
 * default routes    — argument, attribute and configuration default agree (`default_route_*`,
                       `return_x_route`, `freq_default_route`, `freqresp_data_config_independent`);
+* constructor       — its keywords are the attributes `response(...)` replaces
+                      (`ctor_keyword_is_call`, `ctor_squeeze_other_raises`);
 * names             — `name_index_same`, `name_pair_same`, `name_squeezed_whole`,
-                      `unknown_name_raises`.
+                      `unknown_name_raises`;
+* lists of systems  — the call with a list/tuple of systems is, element by element, the
+                      single-system call with the same keywords (`list_call_elementwise`,
+                      `list_call_raises`, `list_call_squeeze_forwarded`, `freq_list_call_elementwise`);
+* histories         — on one response object, every read reports the setting in force at that
+                      read, whatever was read before (`history_read_stateless`,
+                      `history_compose`, `history_reads_erasable`, `history_read_reports_current`,
+                      `history_read_independent_of_reads`, `history_copy_leaves_original`,
+                      `time_history_routes_agree`, `freq_history_routes_agree`).
 -/
 import CtrlVerif.Lemmas.Shape
+import CtrlVerif.Lemmas.History
 
 namespace CtrlVerif.C18
 
@@ -362,6 +373,276 @@ theorem freqresp_stores_full (p m N : Nat) (horner : NDArr α) (sq : Sq) (cfg : 
 /-- a 2-D list of evaluation points is rejected. -/
 theorem lti_call_2d_raises (p m a b : Nat) (rest : List Nat) (horner : NDArr α) (sq : Sq)
     (cfg : Cfg) : ltiCall p m (a :: b :: rest) horner sq cfg = .error .badArg := rfl
+
+/-- the constructor keywords are the attributes `response(...)` replaces: a response built with
+`squeeze=s', transpose=tr', return_x=rx'` is the one built with any other legal keywords and
+then called with `(squeeze=s', transpose=tr', return_x=rx')`; the arrays and counts do not
+depend on the keywords. -/
+theorem ctor_keyword_is_call (time outputs : NDArr α) (states inputs : Option (NDArr α))
+    (issiso : Option Bool) (tr rx tr' rx' : Bool) (sq sq' : Sq) (multi : Bool) (r : TRD α)
+    (h : TRD.init time outputs states inputs issiso tr rx sq multi = .ok r) (hs : sq' ≠ .other) :
+    TRD.init time outputs states inputs issiso tr' rx' sq' multi
+      = .ok (r.call (some sq') (some tr') (some rx')) := by
+  obtain ⟨c, hc, _, hr⟩ := TRD.init_ok_iff.mp h
+  subst hr
+  exact TRD.init_ok_iff.mpr ⟨c, hc, hs, rfl⟩
+
+/-- a squeeze value that is none of `None`, `True`, `False` is rejected by the constructor. -/
+theorem ctor_squeeze_other_raises (time outputs : NDArr α) (states inputs : Option (NDArr α))
+    (issiso : Option Bool) (tr rx : Bool) (multi : Bool) :
+    ∃ e, TRD.init time outputs states inputs issiso tr rx .other multi = .error e := by
+  cases h : TRD.init time outputs states inputs issiso tr rx .other multi with
+  | error e => exact ⟨e, rfl⟩
+  | ok r =>
+    obtain ⟨_, _, hne, _⟩ := TRD.init_ok_iff.mp h
+    exact absurd rfl hne
+
+example : (TRD.init (⟨[2], [8, 9]⟩ : NDArr Nat) ⟨[1, 2], [0, 1]⟩ none (some ⟨[1, 2], [4, 5]⟩)
+    none true false .false false).map (fun r => (r.squeeze, r.transpose, r.noutputs))
+    = .ok (.false, true, 1) := rfl
+
+/-! ## lists of systems -/
+
+/-- a time-response function called with a list of systems returns, at every position, what the
+call for that system alone returns with the same `input`/`output` selection and the same
+`squeeze`, `transpose`, `return_x` keywords (and as many responses as there are systems). -/
+theorem list_call_elementwise (fn : TFn) (T : Nat) (inp out : Option Nat) (u1d : Bool)
+    (t : NDArr α) (systems : List (SysRaw α)) (sq : Sq) (tr : Bool) (rx : Option Bool) (cfg : Cfg)
+    (rs : List (TRD α))
+    (h : timeResponseList fn T inp out u1d t systems sq tr rx cfg = .ok rs) :
+    rs.length = systems.length ∧
+    ∀ (i : Nat) (s : SysRaw α), systems[i]? = some s → ∃ r, rs[i]? = some r ∧
+      timeResponse fn s.p s.m s.n T inp out u1d t s.y s.x s.u sq tr rx cfg = .ok r := by
+  have hf := (listCall_ok_iff _ _ _).mp h
+  exact ⟨forall₂_length hf, fun i s hs => forall₂_getElem? hf i s hs⟩
+
+/-- conversely, when every single-system call succeeds the list call returns exactly these
+results. -/
+theorem list_call_of_single (fn : TFn) (T : Nat) (inp out : Option Nat) (u1d : Bool)
+    (t : NDArr α) (systems : List (SysRaw α)) (sq : Sq) (tr : Bool) (rx : Option Bool) (cfg : Cfg)
+    (single : SysRaw α → TRD α)
+    (h : ∀ s ∈ systems,
+      timeResponse fn s.p s.m s.n T inp out u1d t s.y s.x s.u sq tr rx cfg = .ok (single s)) :
+    timeResponseList fn T inp out u1d t systems sq tr rx cfg = .ok (systems.map single) := by
+  refine (listCall_ok_iff _ _ _).mpr ?_
+  induction systems with
+  | nil => exact .nil
+  | cons s l ih =>
+    exact .cons (h s (List.mem_cons_self ..)) (ih fun a ha => h a (List.mem_cons_of_mem _ ha))
+
+/-- the list call raises exactly when the call for some system raises, with the error of the
+first such system. -/
+theorem list_call_raises (fn : TFn) (T : Nat) (inp out : Option Nat) (u1d : Bool)
+    (t : NDArr α) (systems : List (SysRaw α)) (sq : Sq) (tr : Bool) (rx : Option Bool) (cfg : Cfg)
+    (e : Err) :
+    timeResponseList fn T inp out u1d t systems sq tr rx cfg = .error e ↔
+      ∃ pre s post, systems = pre ++ s :: post ∧
+        (∀ a ∈ pre, ∃ r, timeResponse fn a.p a.m a.n T inp out u1d t a.y a.x a.u sq tr rx cfg
+          = .ok r) ∧
+        timeResponse fn s.p s.m s.n T inp out u1d t s.y s.x s.u sq tr rx cfg = .error e :=
+  listCall_error_iff _ _ _
+
+/-- in particular the `squeeze` keyword reaches every response of the list: each one carries
+the attribute `squeeze = sq` (and `transpose = tr`), so its outputs are processed with it. -/
+theorem list_call_squeeze_forwarded (fn : TFn) (T : Nat) (inp out : Option Nat) (u1d : Bool)
+    (t : NDArr α) (systems : List (SysRaw α)) (sq : Sq) (tr : Bool) (rx : Option Bool) (cfg : Cfg)
+    (rs : List (TRD α))
+    (h : timeResponseList fn T inp out u1d t systems sq tr rx cfg = .ok rs) :
+    ∀ r ∈ rs, r.squeeze = sq ∧ r.transpose = tr ∧
+      r.outputs cfg = processTime r.y r.issiso tr sq cfg.sqTime := by
+  have hf := (listCall_ok_iff _ _ _).mp h
+  intro r hr
+  obtain ⟨i, hi⟩ := List.getElem?_of_mem hr
+  obtain ⟨s, hs, hrs⟩ := forall₂_getElem?_right hf i r hi
+  have hattr := timeResponse_attrs hrs
+  exact ⟨hattr.1, hattr.2, by simp [TRD.outputs, hattr.1, hattr.2]⟩
+
+example : ∃ r0 r1, timeResponseList (α := Nat) .impulse 2 none none false ⟨[2], [30, 31]⟩
+    [⟨1, 1, 1, ⟨[1, 1, 2], [0, 1]⟩, some ⟨[1, 1, 2], [10, 11]⟩, some ⟨[1, 1, 2], [20, 21]⟩⟩,
+     ⟨2, 1, 1, ⟨[2, 1, 2], [0, 1, 2, 3]⟩, some ⟨[1, 1, 2], [10, 11]⟩, some ⟨[1, 1, 2], [20, 21]⟩⟩]
+    .false false none {} = .ok [r0, r1] ∧
+    r0.outputs {} = .ok ⟨[1, 1, 2], [0, 1]⟩ ∧ r1.outputs {} = .ok ⟨[2, 1, 2], [0, 1, 2, 3]⟩ :=
+  ⟨_, _, rfl, rfl, rfl⟩
+
+/-- `ct.frequency_response([sys₁, …], omega, squeeze=…)`: element by element the single-system
+frequency response with the same `squeeze`. -/
+theorem freq_list_call_elementwise (N : Nat) (systems : List (SysHorner α)) (sq : Sq) (cfg : Cfg)
+    (rs : List (RespFRD α)) (h : freqResponseList N systems sq cfg = .ok rs) :
+    rs.length = systems.length ∧
+    ∀ (i : Nat) (s : SysHorner α), systems[i]? = some s → ∃ F, rs[i]? = some F ∧
+      ltiFreqResp s.p s.m N s.horner sq cfg = .ok F := by
+  have hf := (listCall_ok_iff _ _ _).mp h
+  exact ⟨forall₂_length hf, fun i s hs => forall₂_getElem? hf i s hs⟩
+
+/-! ## histories on one response object
+
+Generic in the class of objects (`ops`): `trdOps α` for `TimeResponseData`, `frdOps α` for
+`FrequencyResponseData`. -/
+
+section history
+
+variable {Obj Obs Reading CU SU GU : Type} (ops : HistOps Obj Obs Reading CU SU GU)
+
+/-- reading a property returns the observation of the object under the configuration in force,
+and changes neither any object nor the configuration. -/
+theorem history_read_stateless (s : HState Obj) (j : Nat) (o : Obs) (r : Obj)
+    (h : s.objs[j]? = some r) :
+    s.step ops (.read j o) = .ok (s, some (ops.observe r s.cfg o)) :=
+  HState.step_read ops s j o r h
+
+/-- histories compose. -/
+theorem history_compose (s : HState Obj) (h₁ h₂ : List (HStep Obs CU SU GU)) :
+    s.run ops (h₁ ++ h₂) =
+      match s.run ops h₁ with
+      | .error e => .error e
+      | .ok (r₁, s₁) =>
+        match s₁.run ops h₂ with
+        | .error e => .error e
+        | .ok (r₂, s₂) => .ok (r₁ ++ r₂, s₂) :=
+  HState.run_append ops s h₁ h₂
+
+/-- the objects and the configuration a history ends with are those of the history with every
+read erased: reads leave no trace. -/
+theorem history_reads_erasable (s sf : HState Obj) (h : List (HStep Obs CU SU GU))
+    (rds : List Reading) (hr : s.run ops h = .ok (rds, sf)) :
+    s.run ops (h.filter fun st => !st.isRead) = .ok ([], sf) :=
+  HState.run_erase_reads ops s sf h rds hr
+
+/-- after any history, a read of object `j` reports the observation of that object (as the
+copies and assignments of the history left it) under the configuration the history left. -/
+theorem history_read_reports_current (s sf : HState Obj) (h : List (HStep Obs CU SU GU))
+    (rds : List Reading) (j : Nat) (o : Obs) (r : Obj)
+    (hr : s.run ops h = .ok (rds, sf)) (hj : sf.objs[j]? = some r) :
+    s.run ops (h ++ [.read j o]) = .ok (rds ++ [ops.observe r sf.cfg o], sf) := by
+  rw [HState.run_append, hr]
+  simp [HState.run_cons, HState.step, hj]
+
+/-- two histories from the same state that differ only in their reads (which properties were
+read, how often, in which order, between which changes) make a final read report the same
+thing. -/
+theorem history_read_independent_of_reads (s s₁ s₂ : HState Obj)
+    (h₁ h₂ : List (HStep Obs CU SU GU)) (r₁ r₂ : List Reading) (j : Nat) (o : Obs)
+    (hsame : (h₁.filter fun st => !st.isRead) = (h₂.filter fun st => !st.isRead))
+    (hr₁ : s.run ops h₁ = .ok (r₁, s₁)) (hr₂ : s.run ops h₂ = .ok (r₂, s₂)) :
+    s₁ = s₂ ∧ ∀ x, s.run ops (h₁ ++ [.read j o]) = .ok (r₁ ++ [x], s₁) →
+      s.run ops (h₂ ++ [.read j o]) = .ok (r₂ ++ [x], s₂) := by
+  have e1 := HState.run_erase_reads ops s s₁ h₁ r₁ hr₁
+  have e2 := HState.run_erase_reads ops s s₂ h₂ r₂ hr₂
+  rw [hsame, e2] at e1
+  have hs : s₂ = s₁ := by
+    injection e1 with e1
+    injection e1
+  subst hs
+  refine ⟨rfl, fun x hx => ?_⟩
+  rw [HState.run_append, hr₁] at hx
+  rw [HState.run_append, hr₂]
+  simp only [HState.run_cons, HState.step] at hx ⊢
+  cases hj : s₂.objs[j]? with
+  | none => rw [hj] at hx; cases hx
+  | some r =>
+    rw [hj] at hx
+    simp only [HState.run_nil, Option.toList, List.append_nil] at hx ⊢
+    injection hx with hx
+    injection hx with hx _
+    have := List.append_cancel_left hx
+    rw [this]
+
+/-- `objs[j](**kw)` adds the copy as a new object and leaves every existing object (in
+particular `objs[j]`) as it was. -/
+theorem history_copy_leaves_original (s : HState Obj) (j : Nat) (kw : CU) (r : Obj)
+    (h : s.objs[j]? = some r) :
+    ∃ s', s.step ops (.copy j kw) = .ok (s', none) ∧ s'.cfg = s.cfg ∧
+      s'.objs[s.objs.length]? = some (ops.copy r kw) ∧
+      ∀ k, k < s.objs.length → s'.objs[k]? = s.objs[k]? := by
+  refine ⟨{ s with objs := s.objs ++ [ops.copy r kw] }, by simp [HState.step, h], rfl, by simp, ?_⟩
+  intro k hk
+  simp [List.getElem?_append_left hk]
+
+end history
+
+/-- the three routes by which a squeeze value `v` comes into force on a time response whose
+attribute is unset — `response(squeeze=v)`, `response.squeeze = v`, and
+`config.defaults['control.squeeze_time_response'] = v` — make `outputs`, `states`, `inputs`,
+tuple unpacking, `len` and indexing report the same thing. -/
+theorem time_history_routes_agree (r : TRD α) (v : Sq) (cfg : Cfg) (o : TObs)
+    (hr : r.squeeze = .none) (hc : cfg.sqTime = .none) :
+    ((trdOps α).copy r { squeeze := some v }).observe cfg o
+        = ((trdOps α).set r (.squeeze v)).observe cfg o ∧
+    ((trdOps α).set r (.squeeze v)).observe cfg o
+        = r.observe ((trdOps α).config cfg v) o := by
+  refine ⟨rfl, ?_⟩
+  have hrr : r.call (some .none) none none = r := by
+    cases r; simp_all [TRD.call]
+  have key := default_route_time r v cfg hc
+  rw [hrr] at key
+  have hset : (trdOps α).set r (.squeeze v) = r.call (some v) none none := by
+    simp [trdOps, TRD.setAttr, TRD.call]
+  have hcfg : (trdOps α).config cfg v = { cfg with sqTime := v } := rfl
+  rw [hset, hcfg]
+  obtain ⟨k1, k2, k3⟩ := key
+  have hlegacy : (r.call (some v) none none).legacyStates = r.legacyStates := rfl
+  have hrx : (r.call (some v) none none).returnX = r.returnX := rfl
+  cases o with
+  | time => rfl
+  | outputs => simp only [TRD.observe, k1]
+  | states => simp only [TRD.observe, k2]
+  | inputs => simp only [TRD.observe, k3]
+  | iter => simp only [TRD.observe, TRD.iter, k1, hlegacy, hrx]; rfl
+  | len => rfl
+  | get i =>
+    match i with
+    | 0 => rfl
+    | 1 => simp only [TRD.observe, TRD.getitem, k1]
+    | 2 => rfl
+    | _ + 3 => rfl
+
+/-- the same for a frequency response: `F(squeeze=v)`, `F.squeeze = v` and
+`config.defaults['control.squeeze_frequency_response'] = v` agree on magnitude, phase, complex,
+tuple unpacking (and none touches the stored data). -/
+theorem freq_history_routes_agree (F : RespFRD α) (v : Sq) (cfg : Cfg) (o : FObs)
+    (hF : F.squeeze = .none) (hc : cfg.sqFreq = .none) :
+    ((frdOps α).copy F { squeeze := v }).observe cfg o
+        = ((frdOps α).set F (.squeeze v)).observe cfg o ∧
+    ((frdOps α).set F (.squeeze v)).observe cfg o
+        = F.observe ((frdOps α).config cfg v) o := by
+  have hcopy : (frdOps α).copy F { squeeze := v } = (frdOps α).set F (.squeeze v) := by
+    cases v <;> simp [frdOps, RespFRD.callCopy, RespFRD.setAttr, hF]
+  refine ⟨by rw [hcopy], ?_⟩
+  have hp : ((frdOps α).set F (.squeeze v)).processed cfg
+      = F.processed ((frdOps α).config cfg v) := by
+    cases v <;> simp [frdOps, RespFRD.setAttr, RespFRD.processed, RespFRD.issiso, RespFRD.noutputs,
+      RespFRD.ninputs, Cfg.setSqFreq, hF, hc, processFreq, Sq.resolve] <;> rfl
+  have hrm : ((frdOps α).set F (.squeeze v)).returnMagphase = F.returnMagphase := rfl
+  cases o with
+  | magnitude => simp only [RespFRD.observe, RespFRD.magnitude, hp]
+  | phase => simp only [RespFRD.observe, RespFRD.phase, hp]
+  | complex => simp only [RespFRD.observe, RespFRD.complex, hp]
+  | iter => simp only [RespFRD.observe, RespFRD.iter, hp, hrm]
+  | frdata => rfl
+
+/-- non-vacuity: read `magnitude` (shape `(3)`), change the setting by each route, read again:
+every read shows the setting in force — `(1,1,3)` after `F(squeeze=False)` on the copy, `(3)`
+still on the original, `(1,1,3)` after the package default is set to `False`. -/
+example :
+    (HState.run (frdOps Nat) ⟨[⟨⟨[1, 1, 3], [5, 6, 7]⟩, 3, .none, true⟩], {}⟩
+      [.read 0 .magnitude, .copy 0 { squeeze := .false }, .read 1 .magnitude, .read 0 .magnitude,
+       .config .false, .read 0 .magnitude]).map
+      (fun x => x.1.map fun
+        | .item (.ok (.mag a)) => a.shape
+        | _ => [])
+    = .ok [[3], [1, 1, 3], [3], [1, 1, 3]] := rfl
+
+example :
+    (HState.run (trdOps Nat)
+      ⟨[⟨⟨[2], [8, 9]⟩, ⟨[1, 1, 2], [0, 1]⟩, none, some ⟨[1, 1, 2], [4, 5]⟩, true, 1, 1, 0, 1,
+         .none, false, false⟩], {}⟩
+      [.read 0 .outputs, .set 0 (.squeeze .false), .read 0 .outputs, .set 0 (.squeeze .none),
+       .config .true, .read 0 .outputs, .read 0 .len]).map
+      (fun x => x.1.map fun
+        | .arr (.ok (some a)) => a.shape
+        | .nat n => [n]
+        | _ => [])
+    = .ok [[2], [1, 1, 2], [2], [2]] := rfl
 
 /-! ## NamedSignal -/
 
